@@ -131,10 +131,7 @@ public:
 			dispatcher->appendListener(event, listener)
 		};
 
-		{
-			std::unique_lock<typename DispatcherType::Mutex> lock(itemListMutex);
-			itemList.push_back(item);
-		}
+		doAddItem(item);
 
 		return item.handle;
 	}
@@ -150,10 +147,7 @@ public:
 			dispatcher->prependListener(event, listener)
 		};
 		
-		{
-			std::unique_lock<typename DispatcherType::Mutex> lock(itemListMutex);
-			itemList.push_back(item);
-		}
+		doAddItem(item);
 		
 		return item.handle;
 	}
@@ -170,10 +164,7 @@ public:
 			dispatcher->insertListener(event, listener, before)
 		};
 		
-		{
-			std::unique_lock<typename DispatcherType::Mutex> lock(itemListMutex);
-			itemList.push_back(item);
-		}
+		doAddItem(item);
 		
 		return item.handle;
 	}
@@ -184,6 +175,21 @@ public:
 			return dispatcher->removeListener(event, handle);
 		}
 		return false;
+	}
+
+private:
+	void doAddItem(const Item & item)
+	{
+		try {
+			std::unique_lock<typename DispatcherType::Mutex> lock(itemListMutex);
+			itemList.push_back(item);
+		}
+		catch(...) {
+			// The listener was already added to the dispatcher. If it can't be recorded here,
+			// it must be removed again, otherwise it would outlive the remover.
+			dispatcher->removeListener(item.event, item.handle);
+			throw;
+		}
 	}
 
 private:
@@ -274,10 +280,7 @@ public:
 			callbackList->append(callback)
 		};
 
-		{
-			std::unique_lock<typename CallbackListType::Mutex> lock(itemListMutex);
-			itemList.push_back(item);
-		}
+		doAddItem(item);
 
 		return item.handle;
 	}
@@ -291,10 +294,7 @@ public:
 			callbackList->prepend(callback)
 		};
 
-		{
-			std::unique_lock<typename CallbackListType::Mutex> lock(itemListMutex);
-			itemList.push_back(item);
-		}
+		doAddItem(item);
 
 		return item.handle;
 	}
@@ -309,10 +309,7 @@ public:
 			callbackList->insert(callback, before)
 		};
 
-		{
-			std::unique_lock<typename CallbackListType::Mutex> lock(itemListMutex);
-			itemList.push_back(item);
-		}
+		doAddItem(item);
 
 		return item.handle;
 	}
@@ -323,6 +320,21 @@ public:
 			return callbackList->remove(handle);
 		}
 		return false;
+	}
+
+private:
+	void doAddItem(const Item & item)
+	{
+		try {
+			std::unique_lock<typename CallbackListType::Mutex> lock(itemListMutex);
+			itemList.push_back(item);
+		}
+		catch(...) {
+			// The callback was already added to the callback list. If it can't be recorded here,
+			// it must be removed again, otherwise it would outlive the remover.
+			callbackList->remove(item.handle);
+			throw;
+		}
 	}
 
 private:
